@@ -42,13 +42,18 @@ def linear_search(
 
 
 def binary_search(
-    func: callable, target: float, x: ndarray, y: ndarray, tol=0.05, max_itr=20
+    func: callable, target: float, x: ndarray, y: ndarray, tol=0.05, max_itr=200
 ) -> float:
+    # (the bracket may be many orders of magnitude wider than the distance over which the
+    # function changes - bounds of +-1e12 around a conditional of unit width: the search
+    # runs until the target is met, or until the bracket cannot be halved any further)
     x1, x2 = x
     y1, y2 = y
     assert (y1 < target < y2) or (y2 < target < y1)
     for i in range(max_itr):
         x_new = 0.5 * (x1 + x2)
+        if x_new == x1 or x_new == x2:
+            break
         y_new = func(x_new)
         if abs(y_new - target) < tol:
             break
